@@ -155,7 +155,11 @@ pub fn main(args: &crate::Args) {
     let results = par_map(&jobs, n_threads(), |j, (ii, cuts, render_at)| {
         let (bytes, whole): (&[u8], &(Obs, (u32, u32))) = if *ii >= usize::MAX - 1 { (&reals[usize::MAX - *ii], &real_wholes[usize::MAX - *ii]) } else { (&items[*ii].bytes, wholes[*ii].as_ref().unwrap()) };
         let want_trace = (j % 7 == 0 || cuts.len() > 2) && bytes.len() < 100_000;
+        let _ = jxl_render::verif_sync::take_requests_in_pool_jobs(true);
         let r = feed(bytes, cuts, render_at, want_trace);
+        // the loading-frame path spawns its own background renders: none of them, and no pool body, may request (and
+        // wait for) another frame's render (see C07)
+        let in_job = jxl_render::verif_sync::take_requests_in_pool_jobs(true);
         let oc: Vec<String> = r
             .at_cut
             .iter()
@@ -167,7 +171,11 @@ pub fn main(args: &crate::Args) {
                 LoadingRender::OtherError(_) => format!("error(init={init})"),
             })
             .collect();
-        (judge(&whole.0, &r, whole.1), r.trace, oc)
+        let mut v = judge(&whole.0, &r, whole.1);
+        if v.is_none() && !in_job.is_empty() {
+            v = Some(("handle-wait-in-pool-job".into(), format!("the render of frame(s) {in_job:?} was requested (a blocking wait while another thread renders it) from inside a pool job")));
+        }
+        (v, r.trace, oc)
     });
     for ((ii, cuts, render_at), (viol, trace, oc)) in jobs.iter().zip(&results) {
         rep.eval();
@@ -195,7 +203,7 @@ pub fn main(args: &crate::Args) {
         }
     }
     rep.traces_validated = jobs.len() as u64;
-    rep.rule = "for every corpus stream: EVERY cut position with try_init + render_loading_frame at the cut, then the rest fed and the final decode compared with the one-shot decode; for streams up to 80 (quick) / 160 bytes every PAIR of cuts with render attempts at every non-empty subset of the two cut points, for larger ones pairs on a grid and all adjacent pairs; byte-at-a-time with a render after every byte; cmyk_layers.jxl around every frame offset, every byte of the last 24 bytes of the ICC stream, and evenly spaced cuts. Oracle: init is NeedMoreData or Ok, feeding never errs, loading render is an image of the full (oriented) dimensions or an error classified as need-more-data (unexpected EOF / IncompleteFrame / NotReady), final result identical to the one-shot decode.".into();
+    rep.rule = "for every corpus stream: EVERY cut position with try_init + render_loading_frame at the cut, then the rest fed and the final decode compared with the one-shot decode; for streams up to 80 (quick) / 160 bytes every PAIR of cuts with render attempts at every non-empty subset of the two cut points, for larger ones pairs on a grid and all adjacent pairs; byte-at-a-time with a render after every byte; cmyk_layers.jxl around every frame offset, every byte of the last 24 bytes of the ICC stream, and evenly spaced cuts. Oracle: init is NeedMoreData or Ok, feeding never errs, loading render is an image of the full (oriented) dimensions or an error classified as need-more-data (unexpected EOF / IncompleteFrame / NotReady), final result identical to the one-shot decode; no frame's render is requested from inside a pool job (C07's structural oracle, here on the loading-frame path).".into();
     rep.sample(json!({"item": items[1].name, "stream_hex": hex(&items[1].bytes), "cuts": [9], "render_at": [true]}));
     rep.sample(json!({"item": items[2].name, "cuts": [5, 30], "render_at": [true, false]}));
     rep.extra.insert("synthetic_histories".into(), json!(n_synth));
